@@ -6,7 +6,7 @@ from .. import graph_hist as H
 from .. import histprops as HP
 
 LEVEL = 'proof'
-NEEDS = ['Base', 'Names', 'NamesProofs', 'Graph', 'GraphObs', 'GraphTS', 'GraphInv', 'GraphLemmas', 'GraphInvProofs']
+NEEDS = ['Base', 'Names', 'NamesProofs', 'Graph', 'GraphObs', 'GraphTS', 'GraphInv', 'GraphLemmas', 'GraphInvProofs', 'Spec', 'SpecProofs']
 
 
 def consistent(g, kind, op, code, before, after, ctx):
